@@ -173,7 +173,7 @@ macro_rules! slave_setup {
 // ============================================================================================ C09
 /// Sync (two-step): stored under its sequence id; completes only with a Follow_Up of the same id.
 #[kani::proof]
-#[kani::unwind(9)]
+#[kani::unwind(34)]
 #[kani::stub(PortActionIterator::from, PortActionIterator::verif_recording_from)]
 #[kani::stub(<Duration as core::ops::Div<i32>>::div, stub_div_by_two)]
 #[kani::stub(<Duration as core::ops::Div<f64>>::div, stub_div_by_two)]
@@ -217,7 +217,7 @@ fn c09_sync_two_step() {
 
 /// Sync (one-step): t1 is the originTimestamp of the same message.
 #[kani::proof]
-#[kani::unwind(9)]
+#[kani::unwind(34)]
 #[kani::stub(PortActionIterator::from, PortActionIterator::verif_recording_from)]
 #[kani::stub(<Duration as core::ops::Div<i32>>::div, stub_div_by_two)]
 #[kani::stub(<Duration as core::ops::Div<f64>>::div, stub_div_by_two)]
@@ -259,7 +259,7 @@ fn c09_sync_one_step() {
 
 /// Follow_Up: t1 = preciseOriginTimestamp + correctionField, paired with the Sync of the same id only.
 #[kani::proof]
-#[kani::unwind(9)]
+#[kani::unwind(34)]
 #[kani::stub(PortActionIterator::from, PortActionIterator::verif_recording_from)]
 #[kani::stub(<Duration as core::ops::Div<i32>>::div, stub_div_by_two)]
 #[kani::stub(<Duration as core::ops::Div<f64>>::div, stub_div_by_two)]
@@ -300,7 +300,7 @@ fn c09_follow_up() {
 
 /// transmit timestamp of a Delay_Req: accepted only for the request in flight (same id), once.
 #[kani::proof]
-#[kani::unwind(9)]
+#[kani::unwind(34)]
 #[kani::stub(PortActionIterator::from, PortActionIterator::verif_recording_from)]
 #[kani::stub(<Duration as core::ops::Div<i32>>::div, stub_div_by_two)]
 #[kani::stub(<Duration as core::ops::Div<f64>>::div, stub_div_by_two)]
@@ -331,7 +331,7 @@ fn c09_delay_timestamp() {
 
 /// Delay_Resp: only from the selected parent, only answering *our* request with the id in flight.
 #[kani::proof]
-#[kani::unwind(9)]
+#[kani::unwind(34)]
 #[kani::stub(PortActionIterator::from, PortActionIterator::verif_recording_from)]
 #[kani::stub(<Duration as core::ops::Div<i32>>::div, stub_div_by_two)]
 #[kani::stub(<Duration as core::ops::Div<f64>>::div, stub_div_by_two)]
@@ -371,7 +371,7 @@ fn c09_delay_resp() {
 /// Delay_Req emission: only a Slave port emits; fresh sequence id (+1 mod 2^16); the exchange record is
 /// reset to that id; exactly one event send with the DelayReq context; the delay-request timer is re-armed.
 #[kani::proof]
-#[kani::unwind(9)]
+#[kani::unwind(34)]
 #[kani::stub(PortActionIterator::from, PortActionIterator::verif_recording_from)]
 #[kani::stub(crate::time::Interval::as_core_duration, stub_as_core_duration)]
 #[kani::stub(core::time::Duration::mul_f64, stub_mul_f64)]
@@ -416,7 +416,7 @@ fn c09_send_e2e_delay_request() {
 
 /// slave-side handlers on a port that is not Slave: frame (C07/C08)
 #[kani::proof]
-#[kani::unwind(9)]
+#[kani::unwind(34)]
 #[kani::stub(PortActionIterator::from, PortActionIterator::verif_recording_from)]
 #[kani::stub(<Duration as core::ops::Div<i32>>::div, stub_div_by_two)]
 #[kani::stub(<Duration as core::ops::Div<f64>>::div, stub_div_by_two)]
@@ -449,7 +449,7 @@ fn p2p_setup_state() -> PortState {
 /// Pdelay_Req emission (any port state: the peer mechanism runs on every P2P port): fresh id, the
 /// exchange record is reset, one event send (link-local) with the PDelayReq context, timer re-armed.
 #[kani::proof]
-#[kani::unwind(9)]
+#[kani::unwind(34)]
 #[kani::stub(PortActionIterator::from, PortActionIterator::verif_recording_from)]
 #[kani::stub(crate::time::Interval::as_core_duration, stub_as_core_duration)]
 #[kani::stub(core::time::Duration::mul_f64, stub_mul_f64)]
@@ -532,15 +532,11 @@ fn peer_times_realistic(p: &PeerDelayState) {
 
 /// Pdelay_Resp (t2 in the body, t4 = receive time - correction; one-step: t3 := t2).
 /// A response to the request in flight from a *second* responder makes the port Faulty and is not used.
-#[kani::proof]
-#[kani::unwind(34)]
-#[kani::stub(PortActionIterator::from, PortActionIterator::verif_recording_from)]
-#[kani::stub(<Duration as core::ops::Div<i32>>::div, stub_div_by_two)]
-#[kani::stub(<Duration as core::ops::Div<f64>>::div, stub_div_by_two)]
-fn c14_pdelay_resp() {
+fn pdelay_resp_case(two_step: bool) {
     let lock = ChkLock::new(any_instance_state(0));
     mk_port!(port, &lock, p2p_setup_state(), Running);
-    let header = any_header();
+    let mut header = any_header();
+    header.two_step_flag = two_step;
     let msg = PDelayRespMessage { request_receive_timestamp: any_wire_timestamp(), requesting_port_identity: any_port_identity() };
     kani::assume(realistic_wire(msg.request_receive_timestamp));
     let recv_time = any_realistic_time();
@@ -596,9 +592,22 @@ fn c14_pdelay_resp() {
         check_against_spec(&pre, want, meas, &post, &actions);
     }
     kani::cover!(second_responder);
-    kani::cover!(meas.is_some() && !header.two_step_flag);
+    kani::cover!(meas.is_some());
     kani::cover!(meas.is_some() && pre.tag == 0);
 }
+#[kani::proof]
+#[kani::unwind(34)]
+#[kani::stub(PortActionIterator::from, PortActionIterator::verif_recording_from)]
+#[kani::stub(<Duration as core::ops::Div<i32>>::div, stub_div_by_two)]
+#[kani::stub(<Duration as core::ops::Div<f64>>::div, stub_div_by_two)]
+fn c14_pdelay_resp_two_step() { pdelay_resp_case(true) }
+#[kani::proof]
+#[kani::unwind(34)]
+#[kani::stub(PortActionIterator::from, PortActionIterator::verif_recording_from)]
+#[kani::stub(<Duration as core::ops::Div<i32>>::div, stub_div_by_two)]
+#[kani::stub(<Duration as core::ops::Div<f64>>::div, stub_div_by_two)]
+fn c14_pdelay_resp_one_step() { pdelay_resp_case(false) }
+
 
 /// Pdelay_Resp_Follow_Up (t3 = responseOriginTimestamp + correction), same responder only.
 #[kani::proof]
@@ -672,7 +681,7 @@ fn c14_pdelay_resp_follow_up() {
 /// timestamps in [0, 2^64 ns), every 64-bit correction field) `handle_sync` must return normally; it does not:
 /// `recv_time - correction` underflows the unsigned Time when the correction exceeds the receive timestamp.
 #[kani::proof]
-#[kani::unwind(9)]
+#[kani::unwind(34)]
 #[kani::stub(PortActionIterator::from, PortActionIterator::verif_recording_from)]
 #[kani::stub(<Duration as core::ops::Div<i32>>::div, stub_div_by_two)]
 #[kani::stub(<Duration as core::ops::Div<f64>>::div, stub_div_by_two)]
@@ -688,7 +697,7 @@ fn c03_finding_sync_correction_exceeds_receive_time() {
 /// same class, Follow_Up: `Time::from(preciseOriginTimestamp) + correction` with a negative correction larger
 /// than the origin timestamp
 #[kani::proof]
-#[kani::unwind(9)]
+#[kani::unwind(34)]
 #[kani::stub(PortActionIterator::from, PortActionIterator::verif_recording_from)]
 #[kani::stub(<Duration as core::ops::Div<i32>>::div, stub_div_by_two)]
 #[kani::stub(<Duration as core::ops::Div<f64>>::div, stub_div_by_two)]
